@@ -108,3 +108,10 @@ pub proof fn lemma_filter_all<T>(s: Seq<T>, p: spec_fn(T) -> bool)
     reveal(Seq::filter);
     if s.len() > 0 { lemma_filter_all(s.drop_last(), p); assert(s.drop_last().push(s.last()) =~= s); }
 }
+
+// <[T]>::iter / Vec::iter: the elements by reference, in order (call sites are path-resolved `.iter()` -> `.vx_iter()`, R4)
+pub open spec fn refs<'a, T>(s: Seq<T>) -> Seq<&'a T> { Seq::new(s.len(), |i: int| &s[i]) }
+pub trait VxSliceIter<T> { fn vx_iter<'a>(&'a self) -> VIter<&'a T>; }
+impl<T> VxSliceIter<T> for Vec<T> {
+    #[verifier::external_body] fn vx_iter<'a>(&'a self) -> (r: VIter<&'a T>) ensures r@ == refs::<T>(self@) { unimplemented!() }
+}
